@@ -2,6 +2,7 @@
 from rules import inflate_core as ic
 from rules import tables
 from rules import tokens
+from rules import copyrt
 
 
 def run(ctx):
@@ -21,5 +22,8 @@ def run(ctx):
                       "copy and literal writes — fast path and slow-path states", floor=20, config=cfg)
         tokens.rule_fast_tokens(ctx, cfg, r5)
         tokens.rule_slow_tokens(ctx, cfg, r5)
+        r9 = ctx.rule("R03.9" + sfx, "match copy routines: out[pos+i] = out[(pos-dist+i) & mask] — offset pairing, constant displacement, guarded bulk shortcuts, "
+                      "tail = len & 3, argument order", floor=10, config=cfg)
+        copyrt.rule_copy_routines(ctx, cfg, r9)
         r6 = ctx.rule("R03.6" + sfx, "slow-path Huffman walk reads only bits that are in the buffer", floor=2, config=cfg)
         ic.rule_bit_reads(ctx, cfg, r6)
